@@ -196,7 +196,10 @@ class SamplerCore:
         x = self.state.get_history("x", flat=True)
         logl = self.state.get_history("logl", flat=True)
 
-        if self.config.blobs_dtype is not None:
+        if (
+            self.config.blobs_dtype is not None
+            or self.state.get_current("blobs") is not None
+        ):
             blobs = self.state.get_history("blobs", flat=True)
         else:
             blobs = None
